@@ -208,6 +208,9 @@ type builder struct {
 	candKeys   []*keys.PublicKey // registered, so the committee stays the standby one and the validator does not change
 	registered []bool
 	blocked    []bool
+	govNow     bool // the block being built may carry governance transactions
+	// unblockedNow: accounts unblocked in the block being built
+	unblockedNow map[int]bool
 }
 
 func (b *builder) mkTx(script []byte, signer neotest.Signer, sysFee int64, attrs ...transaction.Attribute) *transaction.Transaction {
@@ -230,7 +233,9 @@ func (b *builder) call(signer neotest.Signer, h util.Uint160, method string, arg
 func (b *builder) genTx(o *counters) (*transaction.Transaction, [][2]int) {
 	r := b.r
 	pickAcc := func() int { return r.Intn(len(b.accs)) }
-	if b.cands != nil && r.Chance(1, 4) {
+	// governance comes in bursts at the second block of an epoch, so that the rest of the epoch (where the crash
+	// points are) usually has no further vote-changing transaction
+	if b.cands != nil && b.govNow && r.Chance(2, 3) {
 		if tx := b.genGovTx(o); tx != nil {
 			return tx, nil
 		}
@@ -246,6 +251,9 @@ func (b *builder) genTx(o *counters) (*transaction.Transaction, [][2]int) {
 			o.count("tx:gas-transfer")
 			return b.call(b.accs[i], b.gas, "transfer", b.accs[i].ScriptHash(), b.accs[j].ScriptHash(), amount, nil), nil
 		case 1: // NEO transfer from the validator
+			if b.cands != nil && !b.govNow {
+				continue // it would change the votes of a voting account
+			}
 			j := pickAcc()
 			o.count("tx:neo-transfer")
 			return b.call(b.val, b.neo, "transfer", b.val.ScriptHash(), b.accs[j].ScriptHash(), int64(r.Range(1, 50)), nil), nil
@@ -288,6 +296,9 @@ func (b *builder) genGovTx(o *counters) *transaction.Transaction {
 	switch r.Weighted([]int{20, 40, 25, 15}) {
 	case 0: // registerCandidate / unregisterCandidate
 		i := r.Intn(len(b.cands))
+		if b.blocked[i] || b.unblockedNow[i] {
+			return nil // a blocked account cannot send transactions (it is still blocked when this block is verified)
+		}
 		method := "registerCandidate"
 		if b.registered[i] {
 			method = "unregisterCandidate"
@@ -316,6 +327,9 @@ func (b *builder) genGovTx(o *counters) *transaction.Transaction {
 		method := "blockAccount"
 		if b.blocked[i] {
 			method = "unblockAccount"
+		}
+		if b.blocked[i] {
+			b.unblockedNow[i] = true
 		}
 		b.blocked[i] = !b.blocked[i]
 		o.count("tx:gov-" + method)
@@ -442,7 +456,12 @@ func buildHistory(r *prng.R, p Proto, n int, o *counters, withTxs func(i int) bo
 				b.deployed = true
 				o.count("tx:deploy")
 			default:
+				b.govNow = p.Gov && i%govCommittee == 1 && r.Chance(2, 3)
+				b.unblockedNow = map[int]bool{}
 				k := r.Weighted([]int{25, 35, 20, 12, 8})
+				if b.govNow {
+					k += 2
+				}
 				for j := 0; j < k; j++ {
 					tx, pairs := b.genTx(o)
 					txs = append(txs, tx)
